@@ -124,6 +124,16 @@ Definition begin (h : hstate) (t : Z) (r : region) : hstate * hres :=
         else (HState (h_cache h) (h_store h) (th_set (h_threads h) t (PLock r fl)), HParked)
   end.
 
+(* BasicCluster.PutRegion: a region that reports no term (term 0: TiKV before 3.0) takes the term of the cached region of
+   its id, then RegionsInfo.SetRegion *)
+Definition with_term (r : region) (t : Z) : region :=
+  Region (r_id r) (r_start r) (r_end r) (r_peers r) (r_leader r) (r_pending r) (r_size r) (r_ver r) (r_confver r) t (r_stamp r).
+Definition keep_term (c : rinfo) (r : region) : region :=
+  if r_term r =? 0
+  then match get_region c (r_id r) with Some o => with_term r (r_term o) | None => r end
+  else r.
+Definition put_region (c : rinfo) (r : region) : rinfo * list region := set_region c (keep_term c r).
+
 Definition store_ops (ov : list region) (r : region) (fl : flags) : list sop :=
   map SDel ov ++ (if f_kv fl then [SSave r] else []).
 
@@ -139,7 +149,7 @@ Definition step (h : hstate) (t : Z) : hstate * hres :=
         let '(_, err) := precheck (h_cache h) r in
         if err then (HState (h_cache h) (h_store h) (th_del (h_threads h) t), HErr)
         else
-          let '(c', ov) := set_region (h_cache h) r in
+          let '(c', ov) := put_region (h_cache h) r in
           match store_ops ov r fl with
           | [] => (HState c' (h_store h) (th_del (h_threads h) t), HOk)
           | todo => (HState c' (h_store h) (th_set (h_threads h) t (PStore todo)), HParked)
@@ -262,7 +272,8 @@ Definition ranges_ok (l : list cdig) : bool :=
 
 Definition find_dig (l : list cdig) (id : Z) : option cdig := List.find (fun d => d_id d =? id) l.
 
-(* version / conf_ver / reported term of every id served before and after one label do not decrease *)
+(* version / conf_ver / term of every id served before and after one label do not decrease (a heartbeat without
+   term keeps the served term) *)
 Definition epoch_step_ok (before after : list cdig) : option string :=
   match List.find (fun a => match find_dig before (d_id a) with
                             | Some b => (d_ver a <? d_ver b) || (d_conf a <? d_conf b)
@@ -270,7 +281,7 @@ Definition epoch_step_ok (before after : list cdig) : option string :=
   | Some _ => Some "C06:version-or-conf-ver-regressed"
   | None =>
     match List.find (fun a => match find_dig before (d_id a) with
-                              | Some b => (0 <? d_term a) && (d_term a <? d_term b)
+                              | Some b => d_term a <? d_term b
                               | None => false end) after with
     | Some _ => Some "C06:reported-term-regressed"
     | None => None
@@ -348,7 +359,7 @@ Definition mon_step (wb : bool) (m : mon) (o : hop) (b : hobs) : mon * option st
           (* storage clause: sequential histories only; with the write-back backend judged right after a flush *)
           let judge_storage := seq && (negb wb || match o0 with OFlush => true | _ => false end) in
           let bad_storage := judge_storage && existsb (fun s => existsb (Z.eqb (sd_id s)) gone) s1 in
-          let term_back := existsb (fun a => (0 <? d_term a) && (d_term a <? zz_get (m_maxterm m) (d_id a))) c1 in
+          let term_back := existsb (fun a => d_term a <? zz_get (m_maxterm m) (d_id a)) c1 in
           let maxterm := map (fun a => (d_id a, Z.max (d_term a) (zz_get (m_maxterm m) (d_id a)))) c1 in
           let verdict := match verdict with
                          | Some sg => Some sg
